@@ -73,11 +73,17 @@ func Shrink(raw json.RawMessage) []json.RawMessage {
 		if len(sc.Chdirs) > 0 {
 			emit(func(c *Scenario) bool { c.Chdirs = nil; return true })
 		}
-		if sc.HaveTape && len(sc.Tape) > 0 {
-			emit(func(c *Scenario) bool { c.Tape = c.Tape[:len(c.Tape)/2]; return true })
+	}
+	if sc.HaveTape {
+		for ti := range sc.Tapes {
+			ti := ti
+			if len(sc.Tapes[ti]) == 0 {
+				continue
+			}
+			emit(func(c *Scenario) bool { c.Tapes[ti] = c.Tapes[ti][:len(c.Tapes[ti])/2]; return true })
 			emit(func(c *Scenario) bool {
-				for i := range c.Tape {
-					c.Tape[i] = 0
+				for i := range c.Tapes[ti] {
+					c.Tapes[ti][i] = 0
 				}
 				return true
 			})
